@@ -53,6 +53,9 @@ func genC20(r *prng) *plan {
 		}
 	}
 	p.Ops = append(p.Ops, opSpec{K: "gossip", N: []int64{0, int64(r.intn(4)), int64(1 + r.intn(3))}})
+	if r.chance(35) {
+		p.Ops = append(p.Ops, opSpec{K: "pargossip", N: []int64{int64(r.intn(3)), int64(1 + r.intn(1<<30))}})
+	}
 	if r.chance(12) {
 		// tables beyond 160 entries, up to all 17 buckets full (272): keys searched once at set-up time
 		p.Cfg["big"] = int64([]int{200, 240, 272}[r.intn(3)])
@@ -404,6 +407,49 @@ func runC20(seed uint64) {
 					w.violate("C20", "radius-not-latest", "%s last reported radius %x; after its record was handed to the node again (AddEnr) the node records %x", cp.pup.cfg.name, cp.radius, got)
 				}
 			}
+		case "pargossip":
+			// several gossip calls at the same instant (each content element that passes validation starts
+			// one on its own goroutine), interleaved statement by statement by the seeded yield scheduler
+			ys := newYsched(mutexesOf(vp.p))
+			portalwire.VerifGossipYieldHook = ys.yield
+			var table []*enode.Node
+			for _, b := range vp.p.VerifTable().Nodes() {
+				for _, bn := range b {
+					table = append(table, bn.Node)
+				}
+			}
+			n := 2 + int(op.n(0))%3
+			res := make([][]*enode.Node, n)
+			var fns []func()
+			for i := 0; i < n; i++ {
+				ci := i % len(cids)
+				fns = append(fns, func() {
+					res[i], _ = vp.p.GossipAndReturnPeers(nil, [][]byte{ckeys[ci]}, [][]byte{[]byte(fmt.Sprintf("content-par-%d", i))})
+				})
+			}
+			sw, stuck := ys.run(newPrng(uint64(op.n(1))), fns)
+			portalwire.VerifGossipYieldHook = nil
+			if stuck {
+				w.violate("C20", "gossip-error", "concurrent gossip calls did not return")
+			}
+			for i := 0; i < n; i++ {
+				cid := cids[i%len(cids)]
+				for _, t := range res[i] {
+					cp := peers[t.ID()]
+					switch {
+					case cp == nil || !inTableSnapshot(table, t.ID()):
+						w.violate("C20", "target-not-in-table", "one of %d concurrent gossip calls: target %s is not a routing table node", n, t.ID().TerminalString())
+					case cp.radius == nil:
+						w.violate("C20", "unknown-radius-target", "one of %d concurrent gossip calls: target %s never reported a radius", n, t.ID().TerminalString())
+					case xorBE(cp.node.ID(), cid[:]).Cmp(cp.radius) >= 0:
+						w.violate("C20", "uncovered-target", "one of %d concurrent gossip calls: target %s: distance %x is not below its last reported radius %x", n, t.ID().TerminalString(), xorBE(t.ID(), cid[:]), cp.radius)
+					}
+				}
+			}
+			w.runFor(1 * time.Second)
+			w.op("pargossip: %d gossip calls at once under the yield scheduler (%d switches)", n, sw)
+			w.abstract("pargossip %d", n)
+			w.probe("concurrent_gossip_calls")
 		case "gossip":
 			ci := int(op.n(0)) % len(cids)
 			cid := cids[ci]
